@@ -4,8 +4,11 @@ package main
 
 import (
 	"fmt"
+	"go/constant"
 	"go/token"
 	"go/types"
+	"sort"
+	"strings"
 
 	"golang.org/x/tools/go/ssa"
 )
@@ -702,5 +705,365 @@ func ruleHist(c *Ctx) []*Ob {
 			o.add(pn, "published footer links to its predecessor", c.instrPos(a.Instr), linked, why)
 		}
 	}
+	// (4) SnapshotPrevious follows the recorded link: the position handed to ScanFooter is the footer's PrevFooterOffset
+	sp := c.Fn("(*Store).snapshotPrevious")
+	scanFn := c.Fn("ScanFooter")
+	nscan := 0
+	for _, k := range callsToFn(sp, scanFn) {
+		nscan++
+		args := k.Call.Args
+		posArg := args[len(args)-1]
+		ok := true
+		n := 0
+		for _, og := range originsDeep(c, posArg) {
+			n++
+			if fv, _ := loadedField(og); fv != fPrev {
+				ok = false
+			}
+		}
+		ok = ok && n > 0
+		why := "the scan for the previous footer starts at the recorded PrevFooterOffset"
+		if !ok {
+			why = "the scan for the previous footer starts at " + accessPath(posArg) + ", not at the footer's PrevFooterOffset: footers that were written but never published (failed sync, abandoned revert) or that precede a same-file compaction enter the history"
+		}
+		o.add(c.fname(sp), "ScanFooter start position", c.instrPos(k), ok, why)
+	}
+	if nscan == 0 {
+		o.add(c.fname(sp), "ScanFooter start position", c.pos(sp.Pos()), false, "anchor lost: snapshotPrevious no longer scans with ScanFooter")
+	}
+	// (5) a compaction into a NEW file must not link into the old file: in compact, stores to PrevFooterOffset lie behind partialCompactStart != 0
+	compact := c.Fn("(*Store).compact")
+	if pcs := paramNamed(compact, "partialCompactStart"); pcs != nil {
+		for _, ps := range prevStores {
+			if ps.f != compact {
+				continue
+			}
+			ok := mustPrecede(compact, ps.st, neverInstr, func(from, to *ssa.BasicBlock, cond ssa.Value, onTrue bool) bool {
+				return isNonZeroTest(cond, pcs, onTrue)
+			})
+			why := "the link is only written for a same-file (partial) compaction"
+			if !ok {
+				why = "compact links the compaction footer to an offset of the old file also when partialCompactStart == 0 (full compaction into a new file): SnapshotPrevious then finds a footer at that offset of the NEW file, or loops"
+			}
+			o.add(c.fname(compact), "store PrevFooterOffset under partialCompactStart != 0", c.instrPos(ps.st), ok, why)
+		}
+	}
 	return o.list
+}
+
+func init() {
+	register(&Rule{
+		ID: "REF-12",
+		Doc: "One acquisition per segment location: the mmap references behind a footer's SegmentLocs are taken either by loadSegments (for a footer built by buildNewFooter / writeSegments / " +
+			"spliceFooter, or read from disk) or by an explicit SegmentLocs.AddRef() on the copy (revertToSnapshot, whose footer is published without loadSegments) - never both. " +
+			"A footer whose locations were pinned with AddRef (in the function itself, or in a helper it was handed to) must not reach loadSegments in that function or its caller: " +
+			"the extra reference is never released, so the superseded data file stays open and on disk until the next open.",
+		Props: []string{"C07", "C15"},
+		Floor: 1,
+		Run:   ruleRef12,
+	})
+}
+
+func ruleRef12(c *Ctx) []*Ob {
+	o := newObs(c, "REF-12")
+	addRef := c.Fn("(SegmentLocs).AddRef")
+	load := c.Fn("(*Footer).loadSegments")
+	fSlocs := c.Field("Footer", "SegmentLocs")
+	shares := func(a, b ssa.Value) bool {
+		if sameValue(a, b) {
+			return true
+		}
+		for _, x := range origins(a) {
+			for _, y := range origins(b) {
+				if x == y {
+					return true
+				}
+			}
+		}
+		return false
+	}
+	loadsOn := func(g *ssa.Function, x ssa.Value) string {
+		for _, k := range callsToFn(g, load) {
+			if len(k.Call.Args) > 0 && shares(k.Call.Args[0], x) {
+				return c.instrPos(k)
+			}
+		}
+		return ""
+	}
+	n := 0
+	for _, f := range c.Funcs {
+		if c.isHarness(f) || f == addRef {
+			continue
+		}
+		fn := c.fname(f)
+		for _, k := range callsToFn(f, addRef) {
+			n++
+			if len(k.Call.Args) == 0 {
+				continue
+			}
+			roots := origins(k.Call.Args[0])
+			derived := func(v ssa.Value) bool {
+				for _, r := range roots {
+					if reachesElem(v, r) {
+						return true
+					}
+				}
+				return false
+			}
+			// the footer(s) these locations end up in (or came from)
+			var footers []ssa.Value
+			for _, a := range fieldAccesses(f, func(v *types.Var) bool { return v == fSlocs }) {
+				if a.Kind == "store" && derived(a.Val) {
+					footers = append(footers, a.Base)
+				}
+			}
+			for _, r := range roots {
+				if fv, base := loadedField(r); fv == fSlocs && base != nil {
+					footers = append(footers, base)
+				}
+			}
+			bad := ""
+			for _, X := range footers {
+				if p := loadsOn(f, X); p != "" {
+					bad = "the same footer is handed to loadSegments at " + p
+				}
+				for _, og := range origins(X) {
+					switch x := og.(type) {
+					case *ssa.Parameter:
+						idx := -1
+						for pi, p := range f.Params {
+							if p == x {
+								idx = pi
+							}
+						}
+						for _, e := range c.Callers(f) {
+							cs := e.Instr
+							if cs == nil || idx < 0 || idx >= len(cs.Common().Args) {
+								continue
+							}
+							if p := loadsOn(cs.Parent(), cs.Common().Args[idx]); p != "" {
+								bad = "the caller " + c.fname(cs.Parent()) + " hands the same footer to loadSegments at " + p
+							}
+						}
+					case *ssa.Alloc:
+						// returned to the caller?
+						returned := false
+						eachInstr(f, func(i ssa.Instruction) {
+							if r, ok := i.(*ssa.Return); ok {
+								for _, rv := range r.Results {
+									if shares(rv, X) {
+										returned = true
+									}
+								}
+							}
+						})
+						if returned {
+							for _, e := range c.Callers(f) {
+								cs := e.Instr
+								call, isCall := cs.(*ssa.Call)
+								if !isCall {
+									continue
+								}
+								if res := firstResult(call); res != nil {
+									if p := loadsOn(cs.Parent(), res); p != "" {
+										bad = "the caller " + c.fname(cs.Parent()) + " hands the returned footer to loadSegments at " + p
+									}
+								}
+							}
+						}
+					}
+				}
+			}
+			why := "the pinned locations belong to a footer that is not handed to loadSegments"
+			if bad != "" {
+				why = "these segment locations are pinned here with AddRef and " + bad + ", which takes the same references again: one reference per retained segment is never released - the superseded data file is never closed or removed"
+			}
+			o.add(fn, "SegmentLocs.AddRef on "+accessPath(k.Call.Args[0]), c.instrPos(k), bad == "", why)
+		}
+	}
+	if n == 0 {
+		o.trivial("-", "no explicit SegmentLocs.AddRef", "-", "nothing to decide")
+	}
+	return o.list
+}
+
+func init() {
+	register(&Rule{
+		ID: "REF-11",
+		Doc: "A borrowed stack does not leave its critical section: a value loaded from one of the collection's section pointers (stackDirtyTop/Mid/Base/Clean, lowerLevelSnapshot) that is still used " +
+			"after the collection lock was released (Unlock / Cond.Wait), or that is stored into a variable captured from the enclosing function or returned, has first - inside the same critical " +
+			"section - been retained with addRef(), or the field was overwritten (the local takes over the field's reference). Otherwise the owner of the field can release the stack " +
+			"(the persister closing the written-back base, which closes and nils its lowerLevelSnapshot) while it is still being read.",
+		Props: []string{"C02", "C15", "C08"},
+		Floor: 4,
+		Run:   ruleRef11,
+		Exceptions: []string{
+			"(*collection).runPersister, stackDirtyBase: only the persister itself ever clears or releases stackDirtyBase, so the field's reference pins the stack for the whole round",
+		},
+	})
+}
+
+func ruleRef11(c *Ctx) []*Ob {
+	o := newObs(c, "REF-11")
+	except := map[string]string{
+		"(*collection).runPersister|stackDirtyBase": "only the persister itself ever clears or releases stackDirtyBase, so the field's reference pins the stack for the whole round",
+	}
+	for _, f := range c.Funcs {
+		if c.isHarness(f) {
+			continue
+		}
+		fn := c.fname(f)
+		for _, a := range fieldAccesses(f, func(v *types.Var) bool { return isSectionField(c, v) }) {
+			if a.Kind != "load" || isFreshAlloc(a.Base) {
+				continue
+			}
+			L, ok := a.Instr.(ssa.Value)
+			if !ok {
+				continue
+			}
+			fieldV := a.Field
+			escaped := ""
+			pendingWhere := map[string]string{}
+			// two walks: inside the section (left=false) and after it (left=true) are distinguished by a flag carried in a side map keyed by block+idx
+			var walkFrom func(p point, left bool, seed []ssa.Value, depth int)
+			visited := map[string]bool{}
+			walkFrom = func(p point, left bool, seed []ssa.Value, depth int) {
+				if depth > 6 || escaped != "" {
+					return
+				}
+				walk(p, walkOpts{
+					seed: seed, noInline: true,
+					visit: func(i ssa.Instruction, t *tracker) bool {
+						if escaped != "" {
+							return true
+						}
+						if i == a.Instr {
+							return true // the field is read again: a new borrow, decided on its own
+						}
+						uses := false
+						for _, op := range i.Operands(nil) {
+							if op != nil && *op != nil && t.vals[*op] {
+								uses = true
+							}
+						}
+						if !left {
+							// retained or taken over inside the section
+							if ci, isCI := i.(ssa.CallInstruction); isCI && uses {
+								cc := ci.Common()
+								name := ""
+								if sf := cc.StaticCallee(); sf != nil {
+									name = sf.Name()
+								} else if cc.IsInvoke() {
+									name = cc.Method.Name()
+								}
+								if acquireMethods[name] {
+									return true
+								}
+							}
+							pending := t.vals[ref11Pending]
+							if s, isS := i.(*ssa.Store); isS {
+								if fv, base := asFieldAddr(s.Addr); fv == fieldV && base != nil && canonKey(base) == canonKey(a.Base) {
+									return true // the field is overwritten: the local now holds the field's reference
+								}
+								if _, isFV := s.Addr.(*ssa.FreeVar); isFV && t.vals[s.Val] {
+									// leaves the section through the captured variable - unless it is retained / taken over before the section ends
+									t.vals[ref11Pending] = true
+									pendingWhere[s.Addr.Name()] = c.instrPos(i)
+									return false
+								}
+							}
+							if _, isR := i.(*ssa.Return); isR && pending {
+								escaped = "stored into a captured variable (" + firstKey(pendingWhere) + ")"
+								return true
+							}
+							if r, isR := i.(*ssa.Return); isR && uses && !isExportedRoot(f) && f.Parent() == nil && strings.HasSuffix(f.Name(), "LOCKED") {
+								_ = r
+								escaped = "returned from a LOCKED helper at " + c.instrPos(i)
+								return true
+							}
+							if isLockBoundary(i) && pending {
+								escaped = "stored into a captured variable (" + firstKey(pendingWhere) + ")"
+								return true
+							}
+							if isLockBoundary(i) {
+								key := fmt.Sprintf("%p:%d", i.Block(), instrIndex(i))
+								if !visited[key] {
+									visited[key] = true
+									var alive []ssa.Value
+									for v := range t.vals {
+										alive = append(alive, v)
+									}
+									if len(t.cells) > 0 || len(alive) > 0 {
+										for cell := range t.cells {
+											_ = cell
+										}
+										nt := append([]ssa.Value{}, alive...)
+										// continue after the boundary in "left" mode, with the same tracked copies
+										walkFromCells(after(i), nt, t, func(p2 point, seed2 []ssa.Value) { walkFrom(p2, true, seed2, depth+1) })
+									}
+								}
+								return true
+							}
+							return false
+						}
+						// after the section
+						if uses {
+							if _, isPhi := i.(*ssa.Phi); !isPhi {
+								if _, isDbg := i.(*ssa.DebugRef); !isDbg {
+									escaped = "used at " + c.instrPos(i) + " after the collection lock was released"
+									return true
+								}
+							}
+						}
+						return false
+					},
+					edge: func(from, to *ssa.BasicBlock, label string, cond ssa.Value, onTrue bool, t *tracker) bool {
+						return escaped != "" || label == "nil"
+					},
+				})
+			}
+			walkFrom(after(a.Instr), false, []ssa.Value{L}, 0)
+			construct := "borrow of " + fieldV.Name()
+			if escaped == "" {
+				o.add(fn, construct, c.instrPos(a.Instr), true, "the loaded stack is not used outside its critical section without addRef / take-over")
+				continue
+			}
+			if why, isEx := except[fn+"|"+fieldV.Name()]; isEx {
+				o.trivial(fn, construct, c.instrPos(a.Instr), "table exception: "+why)
+				continue
+			}
+			o.add(fn, construct, c.instrPos(a.Instr), false, "the stack loaded from "+fieldV.Name()+" is "+escaped+
+				" without addRef() and without the field being overwritten in that section: its owner may release it meanwhile (closing its lowerLevelSnapshot), and merges / lookups running on it resolve against nothing")
+		}
+	}
+	return o.list
+}
+
+var ref11Pending ssa.Value = ssa.NewConst(constant.MakeBool(true), types.Typ[types.Bool])
+
+func firstKey(m map[string]string) string {
+	var ks []string
+	for k, v := range m {
+		ks = append(ks, k+" at "+v)
+	}
+	sort.Strings(ks)
+	if len(ks) == 0 {
+		return "?"
+	}
+	return ks[0]
+}
+
+// walkFromCells continues a walk with the values the tracker currently holds (values only; local cells are re-seeded through their loads).
+func walkFromCells(p point, vals []ssa.Value, t *tracker, cont func(point, []ssa.Value)) {
+	seed := append([]ssa.Value{}, vals...)
+	for cell := range t.cells {
+		if refs := cell.Referrers(); refs != nil {
+			for _, r := range *refs {
+				if ld, ok := r.(*ssa.UnOp); ok && ld.Op == token.MUL {
+					seed = append(seed, ld)
+				}
+			}
+		}
+	}
+	cont(p, seed)
 }
